@@ -35,6 +35,9 @@ EXPLANATION += ' R2-R5 no longer match source templates: the property getters an
 # --- metadata added for batch 7
 EXPLANATION += " R4 also requires that an assigned occupation array is stored by value: the caller's array is changed in place after `mo.occsa = x` and the object must read back the values assigned (np.asarray is modelled as handing back the same array)."
 # --- end metadata batch 7
+# --- metadata added for batch 8
+EXPLANATION += " R1's validator table includes orbital counts of zero (accepted for restricted / unrestricted, rejected for generalized)."
+# --- end metadata batch 8
 TRUSTED = ["CPython ast parser", "attrs validators run on construction and assignment"]
 
 SPIN_ATTRS = ("occs", "coeffs", "energies", "irreps")
